@@ -7,7 +7,8 @@ LEVEL = ("Mechanism level. Decision tables of the five state mergers extracted f
          "result (Executed/Failed) by a pending request, one-sided cells keep the one state, two-sided cells of par/fold "
          "keep both; both sliders advance exactly once per merged state on every path; slider windows are restored for "
          "both contexts; CID stores are unioned (prev first, every current entry inserted) for all five stores. "
-         "Positional arithmetic (a result skipped because a window is mis-sized) is not decided.")
+         "Positional arithmetic (a result skipped because a window is mis-sized) is not decided."
+         " Added: scheme hand-over per row, position-map table and its consumer, fold-lore phase tables, fold completeness accumulates with OR, R-SIDES.")
 
 
 def check(ctx):
